@@ -439,7 +439,7 @@ def core_dialect(rng, n, max_tasks=7):
                     deps.append((d, rng.random() < 0.15, gap))
             prio = rng.choice([None, None, 300, 500, 700, 900])
             st = None
-            if rng.random() < 0.12 and not deps:
+            if rng.random() < 0.15:
                 st = start.replace(hour=0, minute=0) + timedelta(days=rng.randint(0, 6), hours=rng.choice([9, 10, 13]))
                 if st < start:
                     st = None
@@ -599,7 +599,7 @@ def limits_profile(rng, n):
     out = []
     for i in range(n):
         G = rng.choice([3600, 3600, 1800, 900])
-        start = rng.choice(starts) + timedelta(days=rng.randrange(0, 7))
+        start = rng.choice(starts) + timedelta(days=rng.randrange(0, 7), hours=rng.choice([0, 0, 0, 9, 11, 13, 15, 22]))
         length = rng.choice(["+1w", "+2w", "+4w", "+3d"])
         p = Proj(start=start, G=G, length=length)
         grp = p.add_res("g") if rng.random() < 0.5 else None
@@ -681,16 +681,17 @@ def alap_profile(rng, n):
         if cont is not None:
             cont.end = start + timedelta(days=rng.randint(10, 20), hours=rng.choice([12, 17]))
         ts = []
-        for k in range(rng.randint(1, 5)):
+        for k in range(rng.randint(2, 6)):
             r = rng.choice(rs)
             unit = rng.choice([G, G, G // 2, G // 4])
             if unit % 60:
                 unit = G
             effort = unit * rng.randint(1, 14)
             deps = []
-            if ts and rng.random() < 0.6:
-                gap = rng.choice([0, 0, G, 3 * G]) if rng.random() < 0.4 else 0
-                deps.append((rng.choice(ts), False, gap))
+            if ts and rng.random() < 0.7:
+                for d in rng.sample(ts, min(len(ts), rng.choice([1, 1, 2]))):
+                    gap = rng.choice([G, 2 * G, 4 * G, 8 * G]) if rng.random() < 0.5 else 0
+                    deps.append((d, False, gap))
             t = p.add_task("t%d" % k, parent=cont if (cont and rng.random() < 0.7) else None, effort=effort, alloc=[r],
                            deps=deps, mode=None if proj_alap else "alap")
             ts.append(t)
@@ -729,3 +730,89 @@ def teams_alts(rng, n):
             ts.append(p.add_task("t%d" % k, effort=effort, alloc=alloc, alt=alt, deps=deps, prio=rng.choice([None, 300, 700])))
         out.append(("team%04d" % i, p))
     return out
+
+
+# ======================================================================================
+# Rendering of a bare abstract project (as TLC prints it from the MC universes)
+# ======================================================================================
+def render_abstract(A, start=datetime(2024, 1, 1), length="+1w"):
+    """.tjp text of an abstract project record (tasks/res as in the trace format).  The project
+    start must have minute-of-week A['mow'] (2024-01-01 is a Monday 00:00 -> mow 0)."""
+    assert start.weekday() * 1440 + start.hour * 60 + start.minute == A["mow"]
+    G = A["G"]
+    L = ['project p "P" %s %s {' % (fmt_date(start), length), '  timezone "UTC"', '  timeformat "%Y-%m-%d %H:%M"']
+    if G != 3600:
+        L.append("  timingresolution %s" % fmt_dur(G))
+    if A.get("alap"):
+        L.append("  scheduling alap")
+    L.append("}")
+    res, tasks = A["res"], A["tasks"]
+
+    def short(n):
+        return n.split(".")[-1]
+
+    def rres(i, ind):
+        r = res[i]
+        L.append('%sresource %s "%s" {' % (ind, short(r["name"]), short(r["name"])))
+        i2 = ind + "  "
+        eff = Fraction(r["effN"], r["effD"])
+        if eff != 1:
+            L.append("%sefficiency %s" % (i2, fmt_eff(eff)))
+        if r["cal"] == "hours":
+            for d, ivs in enumerate(r["hours"]):
+                if ivs:
+                    L.append("%sworkinghours %s %s" % (i2, DAYS[d], ", ".join(
+                        "%02d:%02d - %02d:%02d" % (a // 60, a % 60, b // 60, b % 60) for a, b in ivs)))
+        for a, b in r["leaves"]:
+            L.append("%sleaves annual %s - %s" % (i2, fmt_date(start + timedelta(seconds=a)), fmt_date(start + timedelta(seconds=b))))
+        if r["limits"]:
+            L.append("%slimits { %s }" % (i2, " ".join(
+                "%s %s" % ("dailymax" if x["kind"] == "d" else "weeklymax", fmt_limit(x["valSec"])) for x in r["limits"])))
+        for j, k in enumerate(res):
+            if k["parent"] == i + 1:
+                rres(j, i2)
+        L.append("%s}" % ind)
+    for i, r in enumerate(res):
+        if r["parent"] == 0:
+            rres(i, "")
+
+    def rtask(i, ind):
+        t = tasks[i]
+        L.append('%stask %s "%s" {' % (ind, short(t["name"]), short(t["name"])))
+        i2 = ind + "  "
+        if t["effort"]:
+            L.append("%seffort %s" % (i2, fmt_dur(t["effort"])))
+        if t["milestone"]:
+            L.append("%smilestone" % i2)
+        if t["alloc"]:
+            s = "%sallocate %s" % (i2, ", ".join(short(res[r - 1]["name"]) for r in t["alloc"]))
+            if t["alt"]:
+                s += " { alternative %s }" % ", ".join(short(res[r - 1]["name"]) for r in t["alt"])
+            L.append(s)
+        if t["prio"] != 500:
+            L.append("%spriority %d" % (i2, t["prio"]))
+        if t.get("expl"):
+            L.append("%sscheduling %s" % (i2, "asap" if t["fwd"] else "alap"))
+        if t["pin"] >= 0:
+            L.append("%sstart %s" % (i2, fmt_date(start + timedelta(seconds=t["pin"]))))
+        if t["pinEnd"] >= 0:
+            L.append("%send %s" % (i2, fmt_date(start + timedelta(seconds=t["pinEnd"]))))
+        for d in t["deps"]:
+            opts = []
+            if d["gap"]:
+                opts.append("gapduration %s" % fmt_dur(d["gap"]))
+            if d["onstart"]:
+                opts.append("onstart")
+            L.append("%sdepends %s%s" % (i2, tasks[d["p"] - 1]["name"], " { %s }" % " ".join(opts) if opts else ""))
+        if t["limits"]:
+            L.append("%slimits { %s }" % (i2, " ".join(
+                "%s %s%s" % ("dailymax" if x["kind"] == "d" else "weeklymax", fmt_limit(x["valSec"]),
+                             " { resources %s }" % short(res[x["res"] - 1]["name"]) if x["res"] else "") for x in t["limits"])))
+        for j, k in enumerate(tasks):
+            if k["parent"] == i + 1:
+                rtask(j, i2)
+        L.append("%s}" % ind)
+    for i, t in enumerate(tasks):
+        if t["parent"] == 0:
+            rtask(i, "")
+    return "\n".join(L) + "\n"
